@@ -398,7 +398,7 @@ pub fn check19(c: &Case19, obs: &mut Obs) -> Verdict {
 }
 
 fn run19(ctx: &Ctx) {
-    ctx.run_prop("rsu_lookup", RULE19, ctx.cases(5000, 640_000), strat19, check19);
+    ctx.run_prop("rsu_lookup", RULE19, ctx.cases(5000, 6_000_000), strat19, check19);
 }
 fn replay19(name: &str, case: &Value) -> Option<Verdict> {
     match name {
@@ -934,7 +934,7 @@ pub fn check18(c: &Case18, obs: &mut Obs) -> Verdict {
 }
 
 fn run18(ctx: &Ctx) {
-    ctx.run_prop("schwab_exports", RULE18, ctx.cases(3000, 320_000), strat18, check18);
+    ctx.run_prop("schwab_exports", RULE18, ctx.cases(3000, 3_000_000), strat18, check18);
 }
 fn replay18(name: &str, case: &Value) -> Option<Verdict> {
     match name {
